@@ -715,8 +715,8 @@ def load {γ : Type} (bin : Except Err γ) (csv : Except Err γ) : Except Err γ
 `load_binary(path, collection_methods=None, counts_per_second=False, drop_names=None, full=False)`,
 `load_csv(path, collection_methods=None, use_acq_for_names=True, drop_names=None, full=False)` and
 `load(path, collection_methods=None, use_acq_for_names=True, counts_per_second=False, drop_names=None,
-full=False)`: an option the caller omits takes the default of the signature; `drop_names` is left at
-its default (the time column is dropped).  With `full` the functions return `(data, params)`,
+full=False)`: an option the caller omits takes the default of the signature (`drop_names`: the time
+field only).  With `full` the functions return `(data, params)`,
 otherwise `data` alone. -/
 
 /-- what an entry point returns: the image, and `params["times"]` when `full` (`none`: the bare
@@ -725,6 +725,9 @@ structure Returned (β : Type) where
   names : List Name
   img : List (List (List β))
   params : Option (List (List Rat))
+  /-- the time field, when `drop_names` was given and does not name it: it stays in the returned array (as the last
+  field of `load_binary`'s array, the first of `load_csv`'s) -/
+  timeField : Option (List (List Rat)) := none
 
 /-- the image part of a return value -/
 def Returned.image {β : Type} (r : Returned β) : List Name × List (List (List β)) := (r.names, r.img)
@@ -735,6 +738,8 @@ structure CallOpts where
   cps : Option Bool
   useAcq : Option Bool
   full : Option Bool
+  /-- `drop_names`: `none` = omitted (the default drops the time field only) -/
+  drop : Option (List Name) := none
 
 /-- `if collection_methods is None: collection_methods = ["batch_xml", "batch_csv"]` -/
 def defaultMethods : List Method := [.batchXml, .batchCsv]
@@ -744,9 +749,29 @@ def CallOpts.cpsV (o : CallOpts) : Bool := o.cps.getD false
 def CallOpts.useAcqV (o : CallOpts) : Bool := o.useAcq.getD true
 def CallOpts.fullV (o : CallOpts) : Bool := o.full.getD false
 
-/-- specification of the return shape: the image as it is; the times only when `full` -/
-def retOf {β : Type} (full : Bool) (im : Image β) : Returned β :=
-  { names := im.names, img := im.img, params := if full then some im.times else none }
+/-- the name of the time field in `load_binary`'s array -/
+def binTimeName : Name := "Time".toList
+
+/-- `rfn.drop_fields(data, drop_names)` on the element fields: a field whose name is listed goes, with its column;
+names that are no field are ignored; the other fields keep their order and their columns.  `none`: `drop_names`
+omitted (only the time field is dropped, which `Image` holds apart). -/
+def dropElems {β : Type} (drop : Option (List Name)) (im : Image β) : Image β :=
+  match drop with
+  | none => im
+  | some d =>
+    { im with names := im.names.filter (fun n => !d.contains n),
+              img := im.img.map (fun line => ((im.names.zip line).filter (fun p => !d.contains p.1)).map (·.2)) }
+
+/-- the time field stays in the array when `drop_names` is given and does not list it -/
+def keptTime (timeNm : Name) (drop : Option (List Name)) (times : List (List Rat)) : Option (List (List Rat)) :=
+  match drop with
+  | none => none
+  | some d => if d.contains timeNm then none else some times
+
+/-- specification of the return shape: the fields `drop_names` leaves; the times as params only when `full` -/
+def retOf {β : Type} (timeNm : Name) (drop : Option (List Name)) (full : Bool) (im : Image β) : Returned β :=
+  { names := (dropElems drop im).names, img := (dropElems drop im).img,
+    params := if full then some im.times else none, timeField := keptTime timeNm drop im.times }
 
 /-- `load_binary` with its options, in the order of the code: the lines are stacked; `if full:` the
 params are read from the stacked array; `if counts_per_second:` every mass field is divided
@@ -756,29 +781,34 @@ def loadBinaryCall {α : Type} (m : Meta) (files : List (DataFile α)) (masses :
   let data ← loadBinary m files masses o.methodsV
   let params := if o.fullV then some data.times else none
   let data := if o.cpsV then divide (masses.getD []) data else data
-  if o.fullV then pure { names := data.names, img := data.img, params := params }
-  else pure { names := data.names, img := data.img, params := none }
+  -- `data = rfn.drop_fields(data, drop_names)`: after the division, on the fields by NAME
+  let kept := dropElems o.drop data
+  let tf := keptTime binTimeName o.drop data.times
+  if o.fullV then pure { names := kept.names, img := kept.img, params := params, timeField := tf }
+  else pure { names := kept.names, img := kept.img, params := none, timeField := tf }
 
 /-- specification: the specified image, divided when counts per second are asked for, in the return
 shape `full` asks for -/
 def loadBinaryCallSpec {α : Type} (m : Meta) (files : List (DataFile α)) (masses : List MassInfo)
     (divide : List MassInfo → Image α → Image α) (o : CallOpts) : Except Err (Returned α) :=
   (loadBinarySpec m files masses o.methodsV).map
-    (fun im => retOf o.fullV (if o.cpsV then divide masses im else im))
+    (fun im => retOf binTimeName o.drop o.fullV (if o.cpsV then divide masses im else im))
 
 /-- `load_csv` with its options; `acq = some names` when AcqMethod.xml exists (its element names) -/
 def loadCsvCall {α : Type} (m : Meta) (files : List (DataFile α)) (acq : Option (List Name))
     (o : CallOpts) : Except Err (Returned Rat) := do
   let data ← loadCsv m files (if o.useAcqV then acq else none) o.methodsV
   let params := if o.fullV then some data.times else none
-  if o.fullV then pure { names := data.names, img := data.img, params := params }
-  else pure { names := data.names, img := data.img, params := none }
+  let kept := dropElems o.drop data
+  let tf := keptTime timeName o.drop data.times
+  if o.fullV then pure { names := kept.names, img := kept.img, params := params, timeField := tf }
+  else pure { names := kept.names, img := kept.img, params := none, timeField := tf }
 
 /-- specification: `tbl` = the names of the batch's own mass table, used when the method file
 supplies the names -/
 def loadCsvCallSpec {α : Type} (m : Meta) (files : List (DataFile α)) (acq : Option (List Name))
     (tbl : List Name) (o : CallOpts) : Except Err (Returned Rat) :=
-  (loadCsvSpec m files (if o.useAcqV && acq.isSome then some tbl else none) o.methodsV).map (retOf o.fullV)
+  (loadCsvSpec m files (if o.useAcqV && acq.isSome then some tbl else none) o.methodsV).map (retOf timeName o.drop o.fullV)
 
 /-! ## 10. a process: several imports one after another
 
@@ -789,7 +819,7 @@ behind.  A process is therefore modelled as the list of its calls, each evaluate
 moment. -/
 
 def Returned.map {β γ : Type} (f : β → γ) (r : Returned β) : Returned γ :=
-  { names := r.names, img := r.img.map (·.map (·.map f)), params := r.params }
+  { names := r.names, img := r.img.map (·.map (·.map f)), params := r.params, timeField := r.timeField }
 
 inductive EntryPoint | loadBinary | loadCsv | load
   deriving DecidableEq, Repr
